@@ -225,7 +225,7 @@ impl GLM {
         }
 
         self.coef = Some(coef);
-        self.deviance = Some(self.family.deviance(y, &mu));
+        self.deviance = Some(self.family.weighted_deviance(y, &mu, &weights));
         self.information_matrix = Some(self.compute_ddbeta(x, &dmu, &var, &weights));
         self.n = Some(sum(&weights).round() as usize);
         self.p = Some(p);
